@@ -971,6 +971,10 @@ static cat_return_state nz_handler(const struct cat_command *cmd, uint8_t *d, si
         if (r < 6 && m >= 8) { *n = (size_t)snprintf((char *)d, m, "~nz%u", pr_n(&NZ, 100)); return CAT_RETURN_STATE_DATA_OK; }
         if (r < 7) { *n = L; return CAT_RETURN_STATE_DATA_NEXT; }                                 /* once more: the next pass is another call */
         if (r < 8) return CAT_RETURN_STATE_NEXT;
+        if (r == 9 && pr_pct(&NZ, 50)) {      /* codes that mean something to the command machine only: for an event they end the event, nothing else happens (no list, no result code, nothing released) */
+                CNT("background_event_handlers_returning_list_or_hold_exit_codes");
+                return !exact ? CAT_RETURN_STATE_PRINT_CMD_LIST_OK : pr_pct(&NZ, 50) ? CAT_RETURN_STATE_HOLD_EXIT_OK : CAT_RETURN_STATE_HOLD_EXIT_ERROR;
+        }
         return r < 9 ? CAT_RETURN_STATE_OK : CAT_RETURN_STATE_ERROR;
 }
 static cat_return_state nz_read(const struct cat_command *c, uint8_t *d, size_t *n, size_t m) { return nz_handler(c, d, n, m, NZ_READ, true); }
